@@ -109,7 +109,8 @@ def run_segment(ops: list, disk: str, segment: int = 0) -> dict:  # noqa: C901, 
     caches = zc.ampform_caches()
     cache_names = sorted(caches)
     sizes_before = zc.cache_sizes()
-    faults = {"probe_raise": [0, 0], "interrupt": [0, 0], "evict": [0, 0], "failed_formulate": [0, 0]}
+    faults = {"probe_raise": [0, 0], "interrupt": [0, 0], "evict": [0, 0], "failed_formulate": [0, 0],
+              "nested_formulate": [0, 0]}
     interrupt_sites: dict[str, int] = {}
 
     for oi, op in enumerate(ops):
@@ -205,6 +206,22 @@ def run_segment(ops: list, disk: str, segment: int = 0) -> dict:  # noqa: C901, 
                     injected = zc.probe_fault_fired()
                     zc.arm_probe_fault(None)
                     faults["probe_raise"][1] += int(injected)
+                elif fault.get("kind") == "nested":
+                    # at the k-th probe call a sibling builder is formulated from inside the callback
+                    faults["nested_formulate"][0] += 1
+                    inner = builders.get(fault.get("inner"))
+                    if inner is not None and inner is not b:
+                        inner_key = zc.config_key(inner["builder"], inner["rx"])
+                        zc.arm_nested_formulate(int(fault["k"]), lambda: zc.outcome_of(inner["builder"].formulate))
+                    outcome, model = zc.outcome_of(builder.formulate)
+                    nested = zc.take_nested_result()
+                    if nested is not None:
+                        faults["nested_formulate"][1] += 1
+                        events.append({"i": oi, "op": "formulate", "key": inner_key, "outcome": nested[0],
+                                       "injected": False, "repeat_of_previous": False, "nested": True})
+                        inner["last"], inner["dirty"] = nested[0], False
+                        if nested[1] is not None:
+                            inner["model"] = nested[1]
                 elif fault.get("kind") == "interrupt":
                     faults["interrupt"][0] += 1
                     with zc.Interrupter(int(fault["line"])) as intr:
